@@ -1,7 +1,7 @@
 """C13 — interpolation and $env substitute exactly the referenced values."""
 import gen
 from histcheck import chain_case
-from props.evalcommon import standard_run, standard_replay
+from props.evalcommon import standard_run, standard_replay, small_scope
 from wire import go_float_str, from_wire
 
 PID = "C13"
@@ -142,7 +142,7 @@ def run(rep):
                  "templates of 0-4 literal segments (punctuation, unicode, closing braces, colons) and 0-4 references to scalar "
                  "paths / $env variables / missing names, $env:NAME in values and keys (values that look like numbers, booleans, "
                  "null, directives), unset names; judged by the model and by an independent Python rendering; "
-                 "non-trivial = contains a reference", oracle=oracle)
+                 "non-trivial = contains a reference", oracle=oracle, extra_gens=[small_scope(PID)])
 
 
 def replay(rep, payload):
